@@ -179,8 +179,23 @@ Definition waits_le (lowest : nat) (r : reader) : bool :=
 Definition drives (r : reader) : bool :=
   r_drive r && match r_waiting r with Some _ => true | None => false end.
 
-(* _can_fetch *)
+(* `x is not None and x in buffered`: the subscriber waits for a message that is in the mailbox *)
+Definition waits_buffered (st : state) (r : reader) : bool :=
+  match r_waiting r with Some x => has_msg (box st) x | None => false end.
+
+(* _can_fetch (as repaired by /repo ede7cda): killed -> True; some subscriber waits for a message that is
+   buffered (it just has not woken up yet) -> False; otherwise True iff a driving subscriber waits *)
 Definition can_fetch (st : state) : bool :=
+  if killed st then true
+  else if existsb (waits_buffered st) (rds st) then false
+  else existsb drives (rds st).
+
+(* _can_fetch as it was before ede7cda (`len(_mailbox) and any(x <= _lowest_msg_number ...)`): not used by
+   the transition system; kept to document the pinned behaviour.  It differs from can_fetch when a lagging
+   subscriber waits for a number that is NOT buffered but lies below the lowest buffered one (out-of-order
+   explicit numbers: the gate then never opened), and when a waiter's number is buffered but is not the
+   lowest (the gate opened although that subscriber had not caught up: C13's finding). *)
+Definition can_fetch_pinned (st : state) : bool :=
   if killed st then true
   else
     match box st with
